@@ -12,7 +12,11 @@
 //!        | co,<field>,<hex literal>,<vs>  (alpha `contains`)  | cnt,<field>,gt|lt|ge|le|eq|ne|xx|any,<int>  (UlMultiField count; `any` = no operator)
 //!        | mf,<field>,empty|nonempty|first|last|collect        (a literal that names a field of the fact set is a variable reference)
 //!    obs: d=<bits> m=<bits> h=<hits after each E> miss=<n> size=<n>     (d: evaluate_typed, m: MemoizedEvaluator::evaluate)
-//! C  +<name>:<e|d>:<acts> | -<name> | ?<hex goal> | X        acts := `-` | act;act…   act := S~f | M~obj~meth | R~obj | W~key | L
+//! C  +<name>:<e|d>[!attr.attr…]:<acts> | -<name> | ?<hex goal> | X        acts := `-` | act;act…   act := S~f | M~obj~meth | R~obj | W~key | L
+//!    attr (rule attributes the conclusion index must IGNORE — only `enabled`, the name and the actions matter):
+//!         F | f  date_effective in the far future / in the past        P | p  date_expires in the past / in the far future
+//!         Z      date_effective with a UTC offset (future)             S<i32> salience      n no_loop      l lock_on_active
+//!         g | G  agenda group "grp" / ""      a activation group "act"      D description
 //!    obs: per ?  `<got>/<scan>` (sorted find_candidates / sorted scan of the live rules for an enabled Set on the field),
 //!         then rules=<n> fields=<n> empty=<0|1>
 //! E  (BackwardEngine over a KnowledgeBase)  +<rule> | -<name> | e:<name>:<0|1> | B (rebuild_index) | W (re-create with_config)
@@ -754,8 +758,50 @@ fn parse_rule(s: &str) -> Option<Rule> {
     }
     let cond = ConditionGroup::Single(Condition::new("T".to_string(), Operator::Equal, Value::Boolean(true)));
     let mut r = Rule::new(parts[0].to_string(), cond, actions);
-    r.enabled = parts[1] == "e";
+    let (flag, attrs) = match parts[1].split_once('!') {
+        Some((f, a)) => (f, a),
+        None => (parts[1], ""),
+    };
+    if flag != "e" && flag != "d" {
+        return None;
+    }
+    for a in attrs.split('.').filter(|a| !a.is_empty()) {
+        r = match a {
+            "F" => r.with_date_effective_str(FAR_FUTURE).ok()?,
+            "f" => r.with_date_effective_str(PAST).ok()?,
+            "Z" => r.with_date_effective_str("2999-06-30T12:00:00+14:00").ok()?,
+            "P" => r.with_date_expires_str(PAST).ok()?,
+            "p" => r.with_date_expires_str(FAR_FUTURE).ok()?,
+            "n" => r.with_no_loop(true),
+            "l" => r.with_lock_on_active(true),
+            "g" => r.with_agenda_group("grp".to_string()),
+            "G" => r.with_agenda_group(String::new()),
+            "a" => r.with_activation_group("act".to_string()),
+            "D" => r.with_description("a rule with a description".to_string()),
+            _ => r.with_salience(a.strip_prefix('S')?.parse::<i32>().ok()?),
+        };
+    }
+    r.enabled = flag == "e";
     Some(r)
+}
+
+const FAR_FUTURE: &str = "2999-12-31T23:59:59Z";
+const PAST: &str = "2001-01-01T00:00:00Z";
+
+/// the attribute lists of the family "rule attributes the conclusion index must ignore"
+fn attr_pool() -> Vec<&'static str> {
+    vec![
+        "F", "P", "F.P", "f", "p", "f.p", "F.p", "f.P", "Z", "S2147483647", "S-2147483648", "S0", "S-1", "n", "l", "n.l", "g", "G", "a", "g.a", "D",
+        "F.S2147483647.n.g", "P.S-2147483648.l.a.D", "f.p.S1.n.l.g.a.D",
+    ]
+}
+
+fn with_attrs(rule: &str, attrs: &str) -> String {
+    let parts: Vec<&str> = rule.splitn(3, ':').collect();
+    if parts.len() != 3 || attrs.is_empty() {
+        return rule.to_string();
+    }
+    format!("{}:{}!{}:{}", parts[0], parts[1].split('!').next().unwrap_or("e"), attrs, parts[2])
 }
 
 /// the same cut `extract_field_from_goal` documents: text before the first listed operator, trimmed
@@ -1371,6 +1417,94 @@ fn gen_engine(rng: &mut Rng) -> String {
     format!("E {}", ops.join(" "))
 }
 
+/// FAMILY "rule attributes the conclusion index must ignore": the histories of `gen_concl` / `gen_engine` with rules that carry
+/// dates (outside / inside their window), salience extremes, no_loop, lock_on_active, agenda / activation groups, description
+fn gen_rule_attr(rng: &mut Rng) -> String {
+    let r = gen_rule(rng);
+    if rng.chance(1, 4) {
+        r
+    } else if rng.chance(1, 2) {
+        let pool = attr_pool();
+        with_attrs(&r, *rng.pick(&pool[..]))
+    } else {
+        // a random combination of 1..4 attributes
+        let atoms = ["F", "f", "Z", "P", "p", "n", "l", "g", "G", "a", "D", "S2147483647", "S-2147483648", "S0", "S-1", "S10"];
+        let k = rng.range(1, 4) as usize;
+        let mut picked: Vec<&str> = Vec::new();
+        for _ in 0..k {
+            let a = *rng.pick(&atoms);
+            if !picked.contains(&a) {
+                picked.push(a);
+            }
+        }
+        with_attrs(&r, &picked.join("."))
+    }
+}
+
+fn attr_family(rng: &mut Rng, n: usize, out: &mut Vec<String>) {
+    let (gx, gb) = (hex("A.x == true"), hex("B.x"));
+    // every attribute list on an enabled / a disabled rule, alone and beside a plain rule, added first / second / re-added
+    for a in attr_pool() {
+        for en in ["e", "d"] {
+            out.push(format!("C +R1:{}!{}:S~A.x ?{} ?{}", en, a, gx, gb));
+            out.push(format!("C +R2:e:S~A.x;S~B.x +R1:{}!{}:S~A.x;M~B~x ?{} ?{} -R2 ?{}", en, a, gx, gb, gx));
+            out.push(format!("C +R1:e:S~A.x +R1:{}!{}:S~B.x ?{} ?{} -R1 ?{}", en, a, gx, gb, gb));
+            out.push(format!("E +R1:{}!{}:S~A.x W +R2:e!{}:S~B.x B e:R1:0 B e:R1:1 B -R2 W", en, a, a));
+            out.push(format!("E B +R1:{}!{}:S~A.x;S~A.y B -R1 B", en, a));
+        }
+    }
+    // random histories
+    let gs = goals();
+    for k in 0..n {
+        if k % 3 == 2 {
+            let mut ops = Vec::new();
+            for _ in 0..rng.below(4) {
+                ops.push(format!("+{}", gen_rule_attr(rng)));
+            }
+            ops.push(if rng.chance(1, 2) { "B".to_string() } else { "W".to_string() });
+            for _ in 0..rng.range(1, 8) {
+                ops.push(match rng.below(100) {
+                    0..=39 => format!("+{}", gen_rule_attr(rng)),
+                    40..=49 => format!("-{}", rng.pick(&["R1", "R2", "R3"])),
+                    50..=61 => format!("e:{}:{}", rng.pick(&["R1", "R2", "R3"]), rng.below(2)),
+                    62..=91 => "B".to_string(),
+                    _ => "W".to_string(),
+                });
+            }
+            out.push(format!("E {}", ops.join(" ")));
+        } else {
+            let mut ops = Vec::new();
+            let mut set_fields: Vec<String> = Vec::new();
+            for _ in 0..rng.range(3, 10) {
+                match rng.below(100) {
+                    0..=47 => {
+                        let r = gen_rule_attr(rng);
+                        for a in r.rsplit(':').next().unwrap_or("").split(';') {
+                            if let Some(f) = a.strip_prefix("S~") {
+                                set_fields.push(f.to_string());
+                            }
+                        }
+                        ops.push(format!("+{}", r))
+                    }
+                    48..=57 => ops.push(format!("-{}", rng.pick(&["R1", "R2", "R3"]))),
+                    58..=97 => {
+                        if !set_fields.is_empty() && rng.chance(3, 5) {
+                            let f = rng.pick(&set_fields).clone();
+                            let tail = *rng.pick(&[" == true", "", " != 1", ">=2", " contains 'q'"]);
+                            ops.push(format!("?{}", hex(&format!("{}{}", f, tail))))
+                        } else {
+                            let g: &str = *rng.pick(&gs[..]);
+                            ops.push(format!("?{}", hex(g)))
+                        }
+                    }
+                    _ => ops.push("X".to_string()),
+                }
+            }
+            out.push(format!("C {}", ops.join(" ")));
+        }
+    }
+}
+
 /// systematic part of the nested-array family: for a few node shapes, every ordered pair (first, second) of
 /// groupings of the same leaves, evaluated first / second / first on one evaluator
 fn nested_systematic() -> Vec<String> {
@@ -1526,6 +1660,8 @@ fn gen(rng: &mut Rng, n: usize, tier: &str) -> Vec<String> {
     }
     // every ordered pair of every fixed nested-array group under count / contains / == other field
     out.extend(nested_systematic());
+    // rule attributes the conclusion index must ignore (after everything else: the cases above do not depend on it)
+    attr_family(rng, n / 5, &mut out);
     out
 }
 
@@ -1552,6 +1688,33 @@ fn shrink(case: &str) -> Vec<String> {
         let mut c = head.clone();
         c.extend(cand);
         out.push(c.join(" "));
+    }
+    if t[0] == "C" || t[0] == "E" {
+        // rule attributes: dropped altogether, then one at a time
+        for (i, o) in ops.iter().enumerate() {
+            let Some(rule) = o.strip_prefix('+') else { continue };
+            let parts: Vec<&str> = rule.splitn(3, ':').collect();
+            if parts.len() != 3 {
+                continue;
+            }
+            let Some((flag, attrs)) = parts[1].split_once('!') else { continue };
+            let al: Vec<&str> = attrs.split('.').collect();
+            let mut variants = vec![String::new()];
+            if al.len() > 1 {
+                for k in 0..al.len() {
+                    let mut v = al.clone();
+                    v.remove(k);
+                    variants.push(v.join("."));
+                }
+            }
+            for v in variants {
+                let mut o2 = ops.clone();
+                o2[i] = if v.is_empty() { format!("+{}:{}:{}", parts[0], flag, parts[2]) } else { format!("+{}:{}!{}:{}", parts[0], flag, v, parts[2]) };
+                let mut c = head.clone();
+                c.extend(o2);
+                out.push(c.join(" "));
+            }
+        }
     }
     out
 }
